@@ -84,3 +84,66 @@ def tm(rng):
             if rng.random() < rng.choice([0.0, 0.5, 0.9]):
                 D.append((p, a, rng.choice(Q), rng.choice(G), rng.choice('LR')))
     return tmr.make(Q, S, G, D, rng.choice(Q), qa, qr, blank)
+
+
+# ---------------------------------------------------------------- many labels on one edge / large alphabets
+WIDE = 'abcdefghijklmnopqrstuvwxyz0123456789ABCDEFGH'
+
+
+def dfa_wide(rng):
+    """1..3 states, 9..33 input symbols: (almost) all symbols lead from one state to the same target"""
+    n = rng.randint(1, 3)
+    S = rng.sample(WIDE, rng.choice([9, 10, 15, 16, 17, 26, 33]))
+    Q = names(rng, n)
+    tgt = {q: rng.choice(Q) for q in Q}
+    T = [(q, a, tgt[q] if rng.random() < 0.9 else rng.choice(Q)) for q in Q for a in S]
+    return fa.make(Q, S, T, Q[0], [q for q in Q if rng.random() < 0.5])
+
+
+def nfa_wide(rng):
+    n = rng.randint(1, 3)
+    S = rng.sample(WIDE, rng.choice([9, 10, 15, 16, 17, 26]))
+    Q = names(rng, n)
+    T = []
+    p, q = rng.choice(Q), rng.choice(Q)
+    for a in S:
+        if rng.random() < 0.9:
+            T.append((p, a, q))
+        if rng.random() < 0.2:
+            T.append((rng.choice(Q), a, rng.choice(Q)))
+    if rng.random() < 0.5:
+        T.append((p, None, q))
+    return fa.make(Q, S, T, Q[0], [x for x in Q if rng.random() < 0.5]), rng.choice(['_', 'ε'])
+
+
+def pda_wide(rng):
+    n = rng.randint(1, 3)
+    S = rng.sample('abxy01', rng.randint(2, 4))
+    G = rng.sample(STACK_SYMS, rng.randint(2, 4))
+    Q = names(rng, n)
+    p, q = rng.choice(Q), rng.choice(Q)
+    T = set()
+    want = rng.choice([9, 10, 12, 16, 17, 20, 33])
+    labels = [(a, u, v) for a in list(S) + [None] for u in list(G) + [None] for v in list(G) + [None]]
+    rng.shuffle(labels)
+    for (a, u, v) in labels[:want]:
+        T.add((p, a, u, q, v))
+    eps = rng.choice(['_', 'ε'])
+    if eps in S or eps in G:
+        eps = 'ε'
+    return pd.make(Q, S, G, sorted(T, key=repr), Q[0], [x for x in Q if rng.random() < 0.5]), eps
+
+
+def tm_wide(rng):
+    Q = names(rng, 3)
+    qa, qr = Q[-2], Q[-1]
+    blank = rng.choice(['_', '□'])
+    G0 = rng.sample([c for c in WIDE[:36] + '#$@~!^&*'], rng.choice([9, 10, 16, 17, 20]))
+    S = [g for g in G0 if rng.random() < 0.5 and g.isalnum()]
+    G = G0 + [blank]
+    p = Q[0]
+    if p in fag.KEYWORDS:
+        p = 'w'
+        Q = ['w'] + Q[1:]
+    D = [(p, a, rng.choice([p, qa]) if rng.random() < 0.9 else qr, rng.choice(G), rng.choice('LR')) for a in G]
+    return tmr.make(Q, S, G, D, p, qa, qr, blank)
